@@ -7,6 +7,11 @@ Extraction "model.ml" C09_Model.ep_step C09_Model.ep_step_current C09_Model.pp_s
   C09_Model.ep_init C09_Model.pp_init C09_Model.ep_full C09_Model.callbacks C09_Model.dispatch
   C09_Model.handle_event C09_Model.handle_runs C09_Model.ep_loop_iter C09_Model.pp_loop_iter_current
   C09_Model.ep_loop_iter_full C09_Model.pp_loop_iter_full_current
+  C09_Model.loop_iter_full_env C09_Model.loop_effects C09_Model.handleRead_env C09_Model.timerRead_env
+  C09_Model.env_ready C09_Model.eventfd_ready C09_Model.timerfd_ready C09_Model.wake_add
+  C09_Model.ep_hasChannel C09_Model.pp_hasChannel
+  Gen_C09.EventLoop_queueInLoop_wake_guard Gen_C09.EventLoop_handleRead_reads_wakeupfd Gen_C09.EventLoop_eventfd_semaphore
+  Gen_C09.EventLoop_handleRead_read_size Gen_C09.TimerQueue_handleRead_reads_timerfd Gen_C09.TimerQueue_readTimerfd_read_size
   C09_Model.callbacks_g
   Gen_C09.PollPoller_remove_resets_index Gen_C09.EPollPoller_add_skips_empty_interest
   Gen_C09.PollPoller_new_entry_negates_empty
